@@ -228,7 +228,7 @@ pub fn parse_hop(toks: &[String], pos: &mut usize) -> HOp {
             HOp::PushStr(hex_to_bytes(&h))
         }
         "pushchar" => HOp::PushChar(num(toks, pos) as u32),
-        "editvec" => {
+        "editvec" | "editflex" => {
             let n = num(toks, pos);
             HOp::EditVec(n, Box::new(parse_hop(toks, pos)))
         }
@@ -339,6 +339,10 @@ macro_rules! impl_dyn_sized {
             unsafe fn emplace_unchecked(self, bytes: &mut [u8]) -> Result<&mut $t, ::flatty::Error> {
                 <$t as $crate::probe::FromSpec>::from_spec(self.0).emplace_unchecked(bytes)
             }
+            // the checked entry point of the library's own emplacer (not the trait's default)
+            fn emplace(self, bytes: &mut [u8]) -> Result<&mut $t, ::flatty::Error> {
+                <$t as $crate::probe::FromSpec>::from_spec(self.0).emplace(bytes)
+            }
         }
     };
 }
@@ -433,6 +437,9 @@ unsafe impl<'a, T: FromSpec + Flat, const N: usize> Emplacer<[T; N]> for Dyn<'a>
     unsafe fn emplace_unchecked(self, bytes: &mut [u8]) -> Result<&mut [T; N], Error> {
         <[T; N] as FromSpec>::from_spec(self.0).emplace_unchecked(bytes)
     }
+    fn emplace(self, bytes: &mut [u8]) -> Result<&mut [T; N], Error> {
+        <[T; N] as FromSpec>::from_spec(self.0).emplace(bytes)
+    }
 }
 
 impl<T: DeepRead + FromSpec + Clone + PartialEq + Flat + Sized, L: Flat + Length> DeepRead for FlatVec<T, L> {
@@ -512,31 +519,45 @@ impl<T: DeepRead + FromSpec + Clone + PartialEq + Flat + Sized, L: Flat + Length
         }
     }
 }
-unsafe impl<'a, T: FromSpec + Flat + Sized, L: Flat + Length> Emplacer<FlatVec<T, L>> for Dyn<'a> {
-    unsafe fn emplace_unchecked(self, b: &mut [u8]) -> Result<&mut FlatVec<T, L>, Error> {
-        match self.0 {
-            Spec::Empty => vec::Empty.emplace_unchecked(b),
-            Spec::Default => <FlatVec<T, L> as FlatDefault>::default_emplacer().emplace_unchecked(b),
-            Spec::VIter(v) => vec::FromIterator(v.iter().map(T::from_spec)).emplace_unchecked(b),
+macro_rules! dyn_vec_body {
+    ($s:ident, $b:ident, $m:ident) => {
+        match $s {
+            Spec::Empty => vec::Empty.$m($b),
+            Spec::Default => <FlatVec<T, L> as FlatDefault>::default_emplacer().$m($b),
+            Spec::VIter(v) => vec::FromIterator(v.iter().map(T::from_spec)).$m($b),
             Spec::VArr(v) => {
                 let f = |i: usize| T::from_spec(&v[i]);
                 match v.len() {
-                    0 => vec::FromArray::<T, 0>([]).emplace_unchecked(b),
-                    1 => vec::FromArray([f(0)]).emplace_unchecked(b),
-                    2 => vec::FromArray([f(0), f(1)]).emplace_unchecked(b),
-                    3 => vec::FromArray([f(0), f(1), f(2)]).emplace_unchecked(b),
-                    4 => vec::FromArray([f(0), f(1), f(2), f(3)]).emplace_unchecked(b),
-                    5 => vec::FromArray([f(0), f(1), f(2), f(3), f(4)]).emplace_unchecked(b),
-                    6 => vec::FromArray([f(0), f(1), f(2), f(3), f(4), f(5)]).emplace_unchecked(b),
-                    7 => vec::FromArray([f(0), f(1), f(2), f(3), f(4), f(5), f(6)]).emplace_unchecked(b),
-                    8 => vec::FromArray([f(0), f(1), f(2), f(3), f(4), f(5), f(6), f(7)]).emplace_unchecked(b),
-                    255 => vec::FromArray::<T, 255>(core::array::from_fn(|i| f(i))).emplace_unchecked(b),
-                    256 => vec::FromArray::<T, 256>(core::array::from_fn(|i| f(i))).emplace_unchecked(b),
-                    300 => vec::FromArray::<T, 300>(core::array::from_fn(|i| f(i))).emplace_unchecked(b),
+                    0 => vec::FromArray::<T, 0>([]).$m($b),
+                    1 => vec::FromArray([f(0)]).$m($b),
+                    2 => vec::FromArray([f(0), f(1)]).$m($b),
+                    3 => vec::FromArray([f(0), f(1), f(2)]).$m($b),
+                    4 => vec::FromArray([f(0), f(1), f(2), f(3)]).$m($b),
+                    5 => vec::FromArray([f(0), f(1), f(2), f(3), f(4)]).$m($b),
+                    6 => vec::FromArray([f(0), f(1), f(2), f(3), f(4), f(5)]).$m($b),
+                    7 => vec::FromArray([f(0), f(1), f(2), f(3), f(4), f(5), f(6)]).$m($b),
+                    8 => vec::FromArray([f(0), f(1), f(2), f(3), f(4), f(5), f(6), f(7)]).$m($b),
+                    255 => vec::FromArray::<T, 255>(core::array::from_fn(|i| f(i))).$m($b),
+                    256 => vec::FromArray::<T, 256>(core::array::from_fn(|i| f(i))).$m($b),
+                    300 => vec::FromArray::<T, 300>(core::array::from_fn(|i| f(i))).$m($b),
                     n => panic!("FromArray of {} not instantiated", n),
                 }
             }
             _ => panic!("bad spec for FlatVec"),
+        }
+    };
+}
+unsafe impl<'a, T: FromSpec + Flat + Sized, L: Flat + Length> Emplacer<FlatVec<T, L>> for Dyn<'a> {
+    unsafe fn emplace_unchecked(self, b: &mut [u8]) -> Result<&mut FlatVec<T, L>, Error> {
+        let s = self.0;
+        dyn_vec_body!(s, b, emplace_unchecked)
+    }
+    // the checked entry point of the library's own emplacer (not the trait's default)
+    fn emplace(self, b: &mut [u8]) -> Result<&mut FlatVec<T, L>, Error> {
+        let s = self.0;
+        #[allow(unused_unsafe)]
+        unsafe {
+            dyn_vec_body!(s, b, emplace)
         }
     }
 }
@@ -588,13 +609,27 @@ impl<L: Flat + Length> DeepRead for FlatString<L> {
         }
     }
 }
+macro_rules! dyn_str_body {
+    ($s:ident, $b:ident, $m:ident) => {
+        match $s {
+            Spec::Empty => string::Empty.$m($b),
+            Spec::Default => <FlatString<L> as FlatDefault>::default_emplacer().$m($b),
+            Spec::Str(s) => string::FromStr(core::str::from_utf8(s).unwrap()).$m($b),
+            _ => panic!("bad spec for FlatString"),
+        }
+    };
+}
 unsafe impl<'a, L: Flat + Length> Emplacer<FlatString<L>> for Dyn<'a> {
     unsafe fn emplace_unchecked(self, b: &mut [u8]) -> Result<&mut FlatString<L>, Error> {
-        match self.0 {
-            Spec::Empty => string::Empty.emplace_unchecked(b),
-            Spec::Default => <FlatString<L> as FlatDefault>::default_emplacer().emplace_unchecked(b),
-            Spec::Str(s) => string::FromStr(core::str::from_utf8(s).unwrap()).emplace_unchecked(b),
-            _ => panic!("bad spec for FlatString"),
+        let s = self.0;
+        dyn_str_body!(s, b, emplace_unchecked)
+    }
+    // the checked entry point of the library's own emplacer (not the trait's default)
+    fn emplace(self, b: &mut [u8]) -> Result<&mut FlatString<L>, Error> {
+        let s = self.0;
+        #[allow(unused_unsafe)]
+        unsafe {
+            dyn_str_body!(s, b, emplace)
         }
     }
 }
@@ -657,16 +692,30 @@ where
         }
     }
 }
+macro_rules! dyn_flex_body {
+    ($s:ident, $b:ident, $m:ident) => {
+        match $s {
+            Spec::Empty => flex::Empty.$m($b),
+            Spec::Default => <FlexVec<T, L> as FlatDefault>::default_emplacer().$m($b),
+            Spec::Flex(v) => flex::FromIterator::new(v.iter().map(Dyn)).$m($b),
+            _ => panic!("bad spec for FlexVec"),
+        }
+    };
+}
 unsafe impl<'a, T: Flat + ?Sized, L: Flat + Length> Emplacer<FlexVec<T, L>> for Dyn<'a>
 where
     for<'b> Dyn<'b>: Emplacer<T>,
 {
     unsafe fn emplace_unchecked(self, b: &mut [u8]) -> Result<&mut FlexVec<T, L>, Error> {
-        match self.0 {
-            Spec::Empty => flex::Empty.emplace_unchecked(b),
-            Spec::Default => <FlexVec<T, L> as FlatDefault>::default_emplacer().emplace_unchecked(b),
-            Spec::Flex(v) => flex::FromIterator::new(v.iter().map(Dyn)).emplace_unchecked(b),
-            _ => panic!("bad spec for FlexVec"),
+        let s = self.0;
+        dyn_flex_body!(s, b, emplace_unchecked)
+    }
+    // the checked entry point of the library's own emplacer (not the trait's default)
+    fn emplace(self, b: &mut [u8]) -> Result<&mut FlexVec<T, L>, Error> {
+        let s = self.0;
+        #[allow(unused_unsafe)]
+        unsafe {
+            dyn_flex_body!(s, b, emplace)
         }
     }
 }
